@@ -25,6 +25,7 @@ static void last_op_at_exit()
     reader r(g_last_op);
     std::string op = r.word();
     if (op == "lv") { std::string inner = r.word(); apply_terminal_op_to(inner, r, to_one_named{*g_term}); }
+    else if (op == "ux") { std::string inner = r.word(); apply_terminal_op(inner, r, *g_term); }
     else if (!op.empty()) apply_terminal_op(op, r, *g_term);
 }
 
@@ -79,6 +80,10 @@ int main()
         if (op == "lv") {
             std::string inner = r.word();
             if (!apply_terminal_op_to(inner, r, to_one_named{t})) return 3;
+        }
+        else if (op == "ux") {
+            std::string inner = r.word();
+            if (!apply_terminal_op(inner, r, t)) return 3;     // (plain here: this harness is about the channel)
         }
         else if (!apply_terminal_op(op, r, t)) {
             return 3;
